@@ -57,6 +57,11 @@
    watch would be handled differently); it is half of C02's cover invariant at synced states (CoverProofs.WInv.wi_tight:
    no stale value in _wd_for_path) plus the missing half "no stale key in _path_for_wd", which WInv does not state;
    CoverOutProofs.dinv preserves a FIXED set of dead descriptors and does not give it either.  Not derived here.
+   REPAIR OF F10e (c_fix_relabel / Reader.unlabel: _add_watch deletes the stale key of a descriptor that comes back under
+   another path): no statement changed.  The stale key is read off the reader's own tables, which twins share
+   (unlabel_twin, by conversion: with_mask / with_rec carry the flag), and it only shrinks _wd_for_path (unlabel_snd), so
+   dead descriptors stay unknown (add_watch_gone).  Every theorem holds for both values of the flag; no pinned witness
+   of this file depends on it (the pinned refutations are about the mask table only).
    What is NOT proved: C11_full for the Pipeline LTS over arbitrary action histories.  The gaps, named:
    C11_pipeline_tie_filtered / C11_pipeline_transparent_step tie the drained regime to Pipeline.prun with the
    watch's class filter (pc_filter): they are C03's pipeline_tie with the filter kept. *)
